@@ -96,11 +96,12 @@ class ForallExists:
     """goal-only clause: for all i (guard(i) => exists j: fn(i, j)).  As a hypothesis use an
     explicit inverse/witness function instead."""
 
-    def __init__(self, guard, fn, jbound, name=""):
+    def __init__(self, guard, fn, jbound, name="", witnesses=()):
         self.guard = guard
         self.fn = fn
         self.jbound = jbound
         self.name = name
+        self.witnesses = tuple(witnesses)    # candidate witness terms w(i): instantiation hints (sound: only instances)
 
 
 def negate_clause(c):
@@ -108,7 +109,8 @@ def negate_clause(c):
     if isinstance(c, ForallExists):
         k = fresh_idx("sk")
         fn = c.fn
-        return [c.guard(k)], [Forall(1, lambda j: z3.Not(fn(k, j)), [c.jbound], "not-" + c.name)]
+        hints = [z3.Not(fn(k, w(k))) for w in c.witnesses]
+        return [c.guard(k)] + hints, [Forall(1, lambda j: z3.Not(fn(k, j)), [c.jbound], "not-" + c.name)]
     if isinstance(c, Forall):
         n, _ = c.skolem_negation()
         return [n], []
@@ -378,6 +380,8 @@ def solve(hyps, goal_negated, timeout_ms=10000, want_model=True, len_terms=(), m
             r = s1.check()
             if r == z3.unsat:
                 return _proved(s1, t0, "ematching")
+        if max_rounds == 0:
+            return Result("unknown", seconds=time.time() - t0, reason="e-matching only")
         # 1b. our own instantiation over the index terms of the query (quantifier free)
         for _ in range(2):
             terms = collect_index_terms(base + insts)
